@@ -347,7 +347,7 @@ pub fn finish_chunk(w: W, pad: usize, rng: &mut Rng) -> ChunkBuf {
     ChunkBuf { ctype, bytes, fields }
 }
 
-fn user_data_chunk(ud: &UserData) -> W {
+pub fn user_data_chunk(ud: &UserData) -> W {
     let mut w = W::new(0x2020);
     let flags = (ud.text.is_some() as u32) | ((ud.color.is_some() as u32) << 1);
     w.u32(Kind::Flags, "ud_flags", flags);
